@@ -399,6 +399,7 @@ Inductive life_op :=
 | LUnsub (k : Z) (fs : list string)
 | LDrop (k : Z) (poke : bool) (eof : bool)      (* close the socket / DISCONNECT, or (poke) send PINGREQ and see whether the broker cuts the connection *)
 | LAdmin (cid : string)
+| LKeepalive (ka : Z) (dl_ms : Z)                (* a throw-away client with this keep-alive: the read deadline the broker armed, in ms (-1 none) *)
 | LExtPut (cid : string) (tp : topics)          (* a persistent session written straight into the store (another broker instance) *)
 | LPub (topic : string) (row : list (string * bool)) (recv : list Z).
 
@@ -414,6 +415,7 @@ Definition life_events (o : life_op) : list ev :=
   | LDrop k _ _ => [Teardown k]
   | LAdmin cid => [AdminDelete cid]
   | LExtPut cid tp => [StorePut cid tp]
+  | LKeepalive _ _ => []
   | LPub _ _ _ => []
   end.
 
@@ -450,8 +452,15 @@ Definition conn_live (st : state) (k : Z) : bool :=
   | None => false
   end.
 
+(** MQTT-3.1.2-24: the broker waits one and a half keep-alive periods for the next packet (no deadline for 0);
+    200 ms of slack for the measurement *)
+Definition keepalive_ok (ka dl : Z) : bool :=
+  if ka =? 0 then dl =? -1
+  else (1500 * ka - 200 <=? dl) && (dl <=? 1500 * ka + 200).
+
 Definition op_agrees (st_before st_after : state) (o : life_op) : bool :=
   match o with
+  | LKeepalive ka dl => keepalive_ok ka dl
   | LPub topic row recv =>
       zseteq (receivers (mqtt_matches topic) st_after) recv &&
       forallb (fun '(f, b) => Bool.eqb b (mqtt_matches topic f)) row
@@ -545,6 +554,7 @@ Definition spec_step (sp : list (string * spec_cid)) (o : life_op) : list (strin
           | None => sset cid {| sp_cur := None; sp_sess := None; sp_subs := Some []; sp_zombie := None |} sp   (* the stored session is deleted *)
           end
       end
+  | LKeepalive _ _ => sp
   | LExtPut cid tp =>
       let x := spec_get sp cid in
       match sp_cur x, sp_zombie x with
@@ -588,6 +598,7 @@ Definition spec_holds (sn : snap) (sp : list (string * spec_cid)) : bool :=
 
 Definition spec_op_holds (sp_before sp_after : list (string * spec_cid)) (sn : snap) (o : life_op) : bool :=
   match o with
+  | LKeepalive ka dl => keepalive_ok ka dl
   | LAdmin cid =>
       (* deleting the session disconnects the client *)
       match sp_cur (spec_get sp_before cid) with
